@@ -41,6 +41,100 @@ def drop_raises(paths):
     return [(c, v) for c, v in paths if not isinstance(v, Raise)]
 
 
+# ------------------------------------------------------------------------------------------------ input validation
+def _syms_of(x, out):
+    """All ('sym', name) atoms at any depth of a condition / term / Rat."""
+    from ..norm import Rat as _Rat
+    if isinstance(x, _Rat):
+        for a in x.atoms():
+            _syms_of(a, out)
+        return
+    if isinstance(x, tuple):
+        if len(x) == 2 and x[0] == "sym" and isinstance(x[1], str):
+            out.add(x[1])
+            return
+        for y in x:
+            _syms_of(y, out)
+    elif isinstance(x, (frozenset, set, list)):
+        for y in x:
+            _syms_of(y, out)
+    elif hasattr(x, "x") and hasattr(x, "op"):
+        _syms_of(x.x, out)
+    elif hasattr(x, "fields") and isinstance(getattr(x, "fields"), dict):
+        for y in x.fields.values():
+            _syms_of(y, out)
+    elif hasattr(x, "items") and isinstance(getattr(x, "items"), (list, tuple)):
+        for y in x.items:
+            _syms_of(y, out)
+
+
+def _param_only(cond, params) -> bool:
+    syms = set()
+    _syms_of(cond, syms)
+    return bool(syms) and syms <= set(params)
+
+
+def strip_extra_validation(p1, p2, params, effects: bool, ctor: bool = False):
+    """Input hardening is not a difference.  A path of the CODE that (a) rejects, (b) has performed no effect, and (c) whose
+    conditions speak about the parameters only (never about the state) is an input validation: `if amount < 0: raise`
+    as the first statements of an operation.  When the reference has no such rejection, the code merely accepts fewer
+    garbage inputs than the reference describes; on every input both accept they are compared as before.  So those paths
+    are dropped from the code's side and the conditions they test (and their negations) are removed from the remaining
+    paths.  A validation that the REFERENCE has must still be in the code (nothing is stripped on the reference's side),
+    and a rejection that depends on the state (limits, balances, health factor) is never stripped."""
+    def _is_validation_loop(e) -> bool:
+        # ('foreach', loop, rows): every row performs nothing and either goes on or rejects, on conditions about the elements only
+        if not (isinstance(e, tuple) and len(e) >= 3 and e[0] == "foreach" and isinstance(e[2], tuple)):
+            return False
+        rows = e[2]
+        return bool(rows) and all(isinstance(r, tuple) and len(r) == 3 and all(isinstance(x, tuple) and x and x[0] == "expr" for x in r[1])
+                                 and "self" not in repr(r[0]) for r in rows) \
+            and any("RAISE" in repr(r[2]) for r in rows)
+
+    def parts(p):
+        if not effects:
+            return (p[0], p[1], ())
+        fx = tuple(e for e in p[1].get("$fx", ()) if not _is_validation_loop(e))
+        if ctor:
+            # a constructor that rejects leaves no object behind: its stores into self are not observable
+            fx = tuple(e for e in fx if not (e[0] == "store" and "('sym', 'self')" in repr(e[1])[:40]))
+        return (p[0], p[2], fx)
+    ref_keys = set()
+    for p in p2:
+        conds, ret, _fx = parts(p)
+        if isinstance(ret, Raise):
+            for c in conds:
+                ref_keys.add(c.key())
+                ref_keys.add(c.negate().key())
+    vocab = set()
+    dropped = []
+    for p in p1:
+        conds, ret, fx = parts(p)
+        if isinstance(ret, Raise) and not fx and conds and all(_param_only(c, params) for c in conds):
+            extra = [c for c in conds if c.key() not in ref_keys]
+            if not extra:
+                continue            # the reference rejects the same way: compared normally
+            dropped.append(p)
+            for c in extra:
+                vocab.add(c.key())
+                vocab.add(c.negate().key())
+    loops = sum(1 for p in p1 if effects for e in p[1].get("$fx", ()) if _is_validation_loop(e))
+    if not dropped and not loops:
+        return p1, 0
+    out = []
+    for p in p1:
+        if any(p is d for d in dropped):
+            continue
+        conds = frozenset(c for c in p[0] if c.key() not in vocab)
+        if effects and loops:
+            env = dict(p[1])
+            env["$fx"] = tuple(e for e in env.get("$fx", ()) if not _is_validation_loop(e))
+            out.append((conds, env) + tuple(p[2:]))
+        else:
+            out.append((conds,) + tuple(p[1:]))
+    return out, len(dropped) + loops
+
+
 def formula_check(res, model: Model, qual: str, ref_src: str, what: str, opaque: Iterable[str] = (),
                   ignore_raises: bool = False, extern: Optional[Dict[str, object]] = None, rule: str = "R-FORMULA",
                   int_is_floor: bool = False, selfcls: Optional[str] = None, max_paths: int = 4000, aliases=None):
@@ -79,6 +173,9 @@ def formula_check(res, model: Model, qual: str, ref_src: str, what: str, opaque:
         return None
     except ZeroDivisionError as e:
         raise AnalysisError(f"{res.prop}: {qual}: {e}")
+    p1, n_val = strip_extra_validation(p1, p2, f.params + f.kwonly + [k for k, v in f.module.imports.items() if v[0] == 'mod'], effects=False)
+    if n_val:
+        res.notes.append(f"{qual}: {n_val} input-validation path(s) (parameter-only, effect-free rejections the reference does not have) set aside")
     if ignore_raises:
         p1, p2 = drop_raises(p1), drop_raises(p2)
     ok, why = same_function(p1, p2)
@@ -266,6 +363,9 @@ def effects_check(res, model: Model, qual: str, ref_src: str, what: str, effect_
         res.refusals.append(f"{res.prop}: {qual} is outside the evaluator's language ({str(e)[:300]}); ledger clause '{what}' "
                             f"cannot be decided")
         return None
+    p1, n_val = strip_extra_validation(p1, p2, f.params + f.kwonly + [k for k, v in f.module.imports.items() if v[0] == 'mod'], effects=True, ctor=(f.name == '__init__'))
+    if n_val:
+        res.notes.append(f"{qual}: {n_val} input-validation path(s) (parameter-only, effect-free rejections the reference does not have) set aside")
     global _IDEM_NAMES
     _IDEM_NAMES = idempotent_resets(model)
     s1 = _sig(p1, ignore_kinds, ignore_calls, keep_raise_effects, ordered, store_fields)
